@@ -16,19 +16,20 @@ except Exception:  # pragma: no cover
     is_tracing = lambda: False  # noqa: E731
 
 POOL = [b"alpha", b"beta", b"gamma"]
-BODIES = [b"keep;\r\n", b"keep;\n", b"keep;", b"", b"OK\r\n{5}\r\nNO \"x\"\r\n", b"# \xc3\xa9\r\nstop;\r\n", b'if true {\r\n  keep;\r\n}\r\n']
+BODIES = [b"keep;\r\n", b"keep;\n", b"keep;", b"", b"OK\r\n{5}\r\nNO \"x\"\r\n", b"# \xc3\xa9\r\nstop;\r\n", b'if true {\r\n  keep;\r\n}\r\n',
+          'reject "a\x0bb\x0cc\x1cd\x85e\u2028f\u2029g";\r\n'.encode("utf-8")]
 NB = len(BODIES)
 FAULTS = ["OK", "NO", "BYE", "SILENT", "EOF"]
 NF = int(os.environ.get("C14_NF", "5"))
 OLD = int(os.environ.get("C14_OLD", "0"))
 NEW = int(os.environ.get("C14_NEW", "1"))
 TWICE = os.environ.get("C14_TWICE", "0") == "1"
-BSEL = [int(x) for x in os.environ.get("C14_BODIES", "0,1,2,3,4,5,6").split(",")]
+BSEL = [int(x) for x in os.environ.get("C14_BODIES", "0,1,2,3,4,5,6,7").split(",")]
 
 
 def reconfigure():
     global NF, OLD, NEW, TWICE, BSEL
-    BSEL = [int(x) for x in os.environ.get("C14_BODIES", "0,1,2,3,4,5,6").split(",")]
+    BSEL = [int(x) for x in os.environ.get("C14_BODIES", "0,1,2,3,4,5,6,7").split(",")]
     NF = int(os.environ.get("C14_NF", "5"))
     OLD = int(os.environ.get("C14_OLD", "0"))
     NEW = int(os.environ.get("C14_NEW", "1"))
